@@ -34,6 +34,7 @@ LEAF_FNS = {
     "nom::character::complete::digit1": "digit1",
     "nom::character::complete::hex_digit1": "hex_digit1",
     "nom::number::complete::float": "float",
+    "nom::number::complete::double": "double",
     "nom::combinator::rest": "rest",
     "nom::character::complete::space0": "space0",
     "nom::character::complete::space1": "space1",
@@ -434,7 +435,7 @@ def tok(n):
         return ("class", "".join(sorted(set(n.arg))), 1)
     return {"digit1": ("class", "0123456789", 1),
             "hex_digit1": ("class", "0123456789ABCDEFabcdef", 1),
-            "float": ("float",), "rest": ("rest",), "eof": ("eof",),
+            "float": ("float",), "double": ("double",), "rest": ("rest",), "eof": ("eof",),
             "space0": ("class", "\t ", 0), "space1": ("class", "\t ", 1)}[n.kind]
 
 
@@ -442,7 +443,7 @@ def expand(p, n, limit=4000):
     """-> ordered list of (tokens, value) alternatives.  tokens: list of token tuples; an optional
     group is expanded into 'present' and 'absent'.  value: value expression over ('tok', token)"""
     k = n.kind
-    if k in ("lit", "is_a", "digit1", "hex_digit1", "float", "rest", "eof", "space0", "space1"):
+    if k in ("lit", "is_a", "digit1", "hex_digit1", "float", "double", "rest", "eof", "space0", "space1"):
         t = tok(n)
         return [([t], ("tok", t))]
     if k == "rule":
@@ -491,7 +492,7 @@ def show_value(v):
     h = v[0]
     if h == "tok":
         t = v[1]
-        if t[0] in ("float", "rest", "eof"):
+        if t[0] in ("float", "double", "rest", "eof"):
             return "$" + t[0].upper()
         if t[0] == "lit":
             return "$LIT"
@@ -550,7 +551,7 @@ def tok_re(t):
         return ("seq", [("set", (c.lower() + c.upper()) if t[2] else c) for c in t[1]])
     if t[0] == "class":
         return ("plus", ("set", t[1])) if t[2] else ("star", ("set", t[1]))
-    if t[0] == "float":
+    if t[0] in ("float", "double"):
         return FLOAT_RE
     if t[0] == "rest":
         return ("star", ("any",))
